@@ -21,7 +21,7 @@ import time
 
 REPO = os.environ.get("VERIF_REPO", "/repo")
 HOME = os.environ.get("VERIF_HOME") or os.path.dirname(os.path.dirname(os.path.dirname(os.path.abspath(__file__))))
-SCRATCH = os.path.join(HOME, "out", "privs")
+SCRATCH = os.path.join(os.environ.get("VERIF_OUT") or os.path.join(HOME, "out"), "privs")
 
 CRED_KEYS = ("ruid", "euid", "suid", "rgid", "egid", "sgid")
 
